@@ -852,7 +852,71 @@ pub fn run_c08(rep: &mut Report, driver: &str, workers: usize, thorough: bool, s
     judge_texts("C08", "layout", "14 token sequences (thorough +200 random) x 14 gap shapes (space, tab, NBSP, U+2003, U+0085, \\n, \\r\\n, \\r, blank lines, comments ended by \\n / \\r / \\r\\n, consecutive comments, a comment containing a quote) placed at every boundary at once, at each boundary alone, and around the text; predicate on the real parser: same tree as with single spaces; and compared with the reference lexer/parser", true, &run, "full", rep);
 }
 
+/// `Rule::new` with hand-built metadata, clones and comparisons: the accessors return exactly what was put in
+fn rule_objects(rep: &mut Report) {
+    use reval::prelude::Rule;
+    let mut sr = StreamReport::new("rule-objects", "Rule::new over names (empty, padded, multi-byte, long) x metadata maps (0 / 1 / 3 / 40 entries; `description` absent, a string, empty, non-string; a `name` entry that differs from the name) x expressions: name(), description(), get_metadata(), iter_metadata() (key order), expr(), and the same on the clone and after a parse of the rule's own rendering — predicates on the real code alone", true);
+    let names = ["n", "", " padded ", "名前 é", "x".repeat(300).leak() as &str];
+    let descs: Vec<Option<Value>> = vec![None, Some(Value::String("d".into())), Some(Value::String(String::new())), Some(Value::Int(5)), Some(Value::None), Some(Value::Vec(vec![Value::String("d".into())]))];
+    let exprs = [Expr::Value(Value::Int(1)), mk_bin("add", reff("a"), reff("b"))];
+    for name in names {
+        for d in &descs {
+            for extra in [0usize, 1, 3, 40] {
+                for e in &exprs {
+                    let mut md: BTreeMap<String, Value> = (0..extra).map(|i| (format!("k{:02}", (i * 7 + 3) % 40), Value::Int(i as i128))).collect();
+                    if extra == 3 {
+                        md.insert("name".into(), Value::String("another name".into()));
+                    }
+                    if let Some(v) = d {
+                        md.insert("description".into(), v.clone());
+                    }
+                    let r = Rule::new(name, md.clone(), e.clone());
+                    let want_desc = match d {
+                        Some(Value::String(x)) => Some(x.as_str()),
+                        _ => None,
+                    };
+                    let c = r.clone();
+                    let mut bad = vec![];
+                    for (label, x) in [("rule", &r), ("clone", &c)] {
+                        if x.name() != name {
+                            bad.push(format!("{label}.name() = {:?}", x.name()));
+                        }
+                        if x.description() != want_desc {
+                            bad.push(format!("{label}.description() = {:?}", x.description()));
+                        }
+                        if x.expr() != e {
+                            bad.push(format!("{label}.expr() differs"));
+                        }
+                        let got: Vec<(String, Value)> = x.iter_metadata().map(|(k, v)| (k.to_string(), v.clone())).collect();
+                        let want: Vec<(String, Value)> = md.iter().map(|(k, v)| (k.clone(), v.clone())).collect();
+                        if got != want {
+                            bad.push(format!("{label}.iter_metadata() differs"));
+                        }
+                        for (k, v) in &md {
+                            if x.get_metadata(k) != Some(v) {
+                                bad.push(format!("{label}.get_metadata({k}) differs"));
+                            }
+                        }
+                        if x.get_metadata("absent").is_some() {
+                            bad.push(format!("{label}.get_metadata(absent) is some"));
+                        }
+                    }
+                    if c != r {
+                        bad.push("clone != original".into());
+                    }
+                    sr.count(&format!("{:?} {:?} {} {}", name.len(), d, extra, e), true);
+                    if !bad.is_empty() {
+                        rep.add_finding(Finding { kind: "impl-violates-property".into(), stream: "rule-objects".into(), case: format!("rule-object\t{}\t{:?}\t{}", hex(name), d, extra), human: format!("Rule::new({:?}, {} metadata entries, description {:?})", name.chars().take(20).collect::<String>(), md.len(), d), impl_out: bad.join("; "), model_out: "the accessors return what was put in".into(), predicate: "name, description (only a string @description), metadata entries and expression of a rule are exactly what it was built from".into(), signature: "C14 rule-object".into() });
+                    }
+                }
+            }
+        }
+    }
+    rep.streams.push(sr);
+}
+
 pub fn run_c14(rep: &mut Report, driver: &str, workers: usize, thorough: bool, seed: u64) {
+    rule_objects(rep);
     let mut rng = Rng::new(seed);
     let run = run_texts(rule_stream(&mut rng, thorough), true, driver, workers);
     judge_texts("C14", "rule-texts", "rule texts of 10 / 33 / 40 / 100 / 300 metadata items with repeated keys, scattered keys, long comment blocks, long names and large constants; rule texts assembled from 0..6 lines: 11 comment-line shapes (indented, empty, NBSP-padded, triple slash, containing `@name`), 26 metadata items (name / description overrides of string and non-string type, duplicates, non-constant values, malformed items) plus every constant shape of depth <= 3 over {literal, list, map} (systematically, incl. duplicate map keys), 14 expressions (multi-line string containing `//`, trailing comment, `/` and comments), placed before / between / after each other with \\n, \\r\\n or \\r endings; compared: name, description, the full metadata list, the expression tree, and which of MissingRuleName / RuleParseError is reported", false, &run, "full", rep);
